@@ -19,8 +19,9 @@ try:
   dst = os.path.join(tmp, 'repo')
   shutil.copytree('/repo', dst, ignore=shutil.ignore_patterns('.git', '__pycache__', 'doc', 'bench', 'examples'))
   env = dict(os.environ, PYTHONPATH=dst, OMP_NUM_THREADS='1', PYTHONDONTWRITEBYTECODE='1')
+  shutil.copy(demo, os.path.join(dst, 'demo_seed.py'))   # the script's own directory is sys.path[0]
   def run_demo():
-    r = subprocess.run(['/venv/bin/python', demo], cwd=dst, env=env, stdout=subprocess.PIPE, stderr=subprocess.STDOUT, text=True)
+    r = subprocess.run(['/venv/bin/python', 'demo_seed.py'], cwd=dst, env=env, stdout=subprocess.PIPE, stderr=subprocess.STDOUT, text=True)
     return r.returncode, r.stdout[-400:]
   rc0, o0 = run_demo()
   out['demo_without_change'] = 'pass' if rc0 == 0 else 'FAIL rc=%d: %s' % (rc0, o0)
